@@ -9,7 +9,7 @@ from vlib import (Inconclusive, NCPU, log, run, run_tlc, stage_spec, validate_tr
 
 H_INV = ["H_WellFormed"]
 M_INV = ["M_Values", "M_Heads", "M_Nidx", "M_ClockId", "M_Iterator"]
-M_PROP = ["M_Append", "M_Join", "M_SetIdentity"]
+M_PROP = ["M_Append", "M_Join", "M_SetIdentity", "M_Tamper"]
 
 # Layer-P operators of each property: (model invariants, model action properties,
 #                                      trace invariants, trace action properties)
@@ -24,6 +24,10 @@ OPS = {
     "C05": ([], ["C05_EntriesMonotone", "C05_ValuesSubsequence", "C05_OthersUntouched"],
             ["C05_OneContentPerHash"],
             ["C05_EntriesMonotone", "C05_ValuesSubsequence", "C05_DigestsStable", "C05_OthersUntouched"]),
+    "C06": (["C06_HeadsStayInLog"], ["C06_OnlyValidAdded"],
+            ["C06_HonestHoldGenuine"],
+            ["C06_AppendDenied", "C06_DeniedWriterCannotAppend", "C06_AppendedVerifies", "C06_AllOrNothing",
+             "C06_OnlyValidAdded", "C06_BadCandidateRejected", "C06_ValidJoinSucceeds"]),
     "C15": (["C15_AlgoMeetsSpec"], [], ["C15_IterMeetsSpec"], []),
     "C16": ([], ["C16_Bounded"], [], ["C16_NoPanic", "C16_LastN"]),
 }
@@ -31,7 +35,7 @@ OPS = {
 
 def base_consts(**kw):
     c = dict(NR=3, Writer0=[1, 2, 1], Lid=["X", "X", "X"], Fn="LWW", MaxE=4, MaxOps=6, PCs={1},
-             Sizes=set(), Writers=set(), Denied=[set(), set(), set()], HashPerm="id", IterOn=set())
+             Sizes=set(), Writers=set(), Denied=[set(), set(), set()], HashPerm="id", IterOn=set(), Evil=set(), Kinds=set(), MaxBad=0)
     c.update(kw)
     return c
 
@@ -50,7 +54,16 @@ def explore(specdir, name, consts, invs, props, workers=NCPU, timeout=1500, simu
         num, depth = simulate
         extra = ("-simulate", "num=%d" % num, "-depth", str(depth), "-seed", str(seed))
         workers = 1
-    return run_tlc(specdir, name, workers=workers, timeout=timeout, extra=extra)
+    res = run_tlc(specdir, name, workers=workers, timeout=timeout, extra=extra)
+    if res.violated and not res.crashed:
+        # TLC stops at the first counterexample: explore again without properties so that every
+        # history is still exported and replayed (verdicts come from the replay only)
+        write_mc(specdir, "IpfsLog", consts, invariants=["TypeOK"], properties=[],
+                 view="View", constraint="Export", name=name + "X")
+        res2 = run_tlc(specdir, name + "X", workers=workers, timeout=timeout, extra=extra)
+        res2.violated = res.violated
+        return res2
+    return res
 
 
 def maximal_only(scripts):
@@ -68,20 +81,70 @@ def maximal_only(scripts):
     return out
 
 
-def replay(binpath, scratch, tag, hcfg, scripts, mode, complete=False, workers=NCPU, timeout=1500):
+class Crash(Exception):
+    """The harness process died inside go-ipfs-log (a panic on a goroutine of the library)."""
+
+    def __init__(self, script, frames, output):
+        Exception.__init__(self, "crash")
+        self.script, self.frames, self.output = script, frames, output
+
+
+def _lib_frames(out):
+    """Stack frames of the first panicking goroutine; library frames only."""
+    frames = []
+    started = False
+    for line in out.splitlines():
+        if line.startswith("goroutine ") and "[running]" in line:
+            if started:
+                break
+            started = True
+            continue
+        if started and line and not line.startswith("\t") and "(" in line:
+            frames.append(line.split("(")[0].strip())
+    return frames
+
+
+def replay(binpath, scratch, tag, hcfg, scripts, mode, complete=False, workers=NCPU, timeout=1500, isolate=True):
     cfgp = os.path.join(scratch, tag + ".cfg.json")
     scp = os.path.join(scratch, tag + ".scripts.ndjson")
     outp = os.path.join(scratch, tag + ".trace.ndjson")
+    prog = os.path.join(scratch, tag + ".progress")
     json.dump(hcfg, open(cfgp, "w"))
     with open(scp, "w") as f:
         for s in scripts:
             f.write(s + "\n")
-    cmd = [binpath, "lrun", "-cfg", cfgp, "-scripts", scp, "-out", outp, "-mode", mode, "-workers", str(workers)]
+    if os.path.exists(prog):
+        os.remove(prog)
+    cmd = [binpath, "lrun", "-cfg", cfgp, "-scripts", scp, "-out", outp, "-mode", mode, "-workers", str(workers),
+           "-progress", prog]
     if complete:
         cmd.append("-complete")
     p = run(cmd, timeout=timeout)
     if p.returncode != 0:
-        raise Inconclusive("harness lrun failed (%d):\n%s" % (p.returncode, p.stdout[-3000:]))
+        out = p.stdout
+        if ("panic:" in out or "fatal error:" in out) and "goroutine " in out:
+            frames = _lib_frames(out)
+            in_lib = [f for f in frames if f.startswith("berty.tech/go-ipfs-log")]
+            in_harness = [f for f in frames if f.startswith("verif/harness")]
+            if in_lib and not (in_harness and frames.index(in_harness[0]) < frames.index(in_lib[0])) and isolate:
+                # which script was running?  re-run the unfinished ones alone
+                started, done = [], set()
+                if os.path.exists(prog):
+                    for line in open(prog):
+                        t, sid = line.split()
+                        (started.append(int(sid)) if t == "S" else done.add(int(sid)))
+                for sid in [x for x in started if x not in done]:
+                    try:
+                        replay(binpath, scratch, tag + "-iso%d" % sid, hcfg, [scripts[sid - 1]], mode, complete,
+                               workers=1, timeout=300, isolate=False)
+                    except Crash as c:
+                        raise Crash(json.loads(scripts[sid - 1]), c.frames, c.output)
+                    except Inconclusive:
+                        continue
+                raise Inconclusive("harness crashed inside the library but no single script reproduces it:\n" + out[-3000:])
+            if in_lib and not isolate:
+                raise Crash(None, in_lib, out[-3000:])
+        raise Inconclusive("harness lrun failed (%d):\n%s" % (p.returncode, out[-3000:]))
     log("  " + p.stdout.strip().splitlines()[-1])
     return outp
 
@@ -101,6 +164,11 @@ def classify(report, prop, viols, hcfg, scripts_by_sid=None):
                                                            ("le_out" if it["amount"] <= len(it["out"]) else "gt_out")),
                 "closed": it["closed"], "iter_err": bool(it["err"]), "iter_panic": it["panic"] or it["hung"],
             })
+        if rec and rec.get("op") in ("J", "JB", "A") and prop == "C06":
+            desc["codec"] = hcfg.get("Codec")
+            if rec.get("op") != "A":
+                src = rec["pre"][rec["s"] - 1]
+                desc["src_bad_kinds"] = sorted({b["kind"] for b in src.get("bad", [])})
         if op.startswith("H_"):
             raise Inconclusive("harness trace not well formed (%s): %s" % (op, json.dumps(rec)[:600]))
         if op.startswith("M_"):
@@ -148,8 +216,18 @@ def run_family_l(prop, tier, seed, report, scratch, binpath, plans):
             raise Inconclusive("TLC exported no history for " + plan["name"])
         hcfg = harness_cfg(consts, seed, plan.get("codec", "cbor"))
         t1 = time.time()
-        trace = replay(binpath, scratch, plan["name"], hcfg, scripts, plan.get("mode", "last"),
-                       complete=plan.get("complete", False))
+        try:
+            trace = replay(binpath, scratch, plan["name"], hcfg, scripts, plan.get("mode", "last"),
+                           complete=plan.get("complete", False))
+        except Crash as c:
+            # a panic on a library goroutine takes the whole process down: the property's
+            # operations did not complete (and nothing can be validated for this plan)
+            report.add_violation({"operator": prop + "_NoCrash", "crash": True, "codec": hcfg.get("Codec"),
+                                  "frame": c.frames[0] if c.frames else "?"},
+                                 {"family": "L", "cfg": hcfg, "script": c.script, "stack": c.output[-2500:]})
+            report.coverage.setdefault("plans", []).append({"name": plan["name"], "crashed": True})
+            exhaustive = False
+            continue
         t2 = time.time()
         n, viols, bad = validate_traces(specdir, "Trace_IpfsLog", trace, H_INV + tinv + M_INV, tprop + M_PROP, scratch)
         log("  %s: replay %.1fs, validated %d records in %.1fs, %d operator failures" %
